@@ -165,6 +165,10 @@ func genC17(r *sim.Rand, tier string) *sim.Program {
 		nops = r.Range(1030, 1060)
 	}
 	burst := r.Chance(1, 2) // many generates in a row to cross the interval
+	if level == 1 && r.Chance(1, 200) {
+		// a long life without reseeding: the reseed counter passes 2^16 (only the highest level allows that many calls)
+		p.Add("long", r.PickInt(66000, 66000, 70000, 131100), r.PickInt(1, 1, 16, 32))
+	}
 	for i := 0; i < nops; i++ {
 		x := r.Intn(10)
 		switch {
@@ -423,6 +427,38 @@ func execC17Bubble(t *testing.T, p *sim.Program, c *sim.Ctx) {
 			counter = 1
 			seeded = time.Now()
 			c.Hit("probe:reseed")
+		case "long":
+			cnt, n := op.Int(0), op.Int(1)
+			if cnt < 0 {
+				cnt = 0
+			}
+			if cnt > 140000 {
+				cnt = 140000
+			}
+			if n < 1 || n > 32 {
+				n = 1
+			}
+			c.Abs("long", cnt > 65536, n)
+			out := make([]byte, n)
+			for j := 0; j < cnt; j++ {
+				if needReseed() != 0 {
+					break
+				}
+				if err := obj.Generate(out, nil); err != nil {
+					c.Fail("generate-refused", i, op.K, "generate #%d of a long history (%d bytes, no additional input) failed: %v", counter, n, err)
+					return
+				}
+				want := m.Generate(n, nil)
+				counter++
+				if !bytes.Equal(out, want) {
+					c.Fail("output-mismatch", i, op.K, "mechanism %d gm=%v alg %d: generate #%d of %d bytes in a long history without reseeding differs from the model", mech, gm, alg, counter-1, n)
+					return
+				}
+			}
+			if counter > 65536 {
+				c.Hit("probe:reseed-counter-past-2^16")
+			}
+			c.Out("long", out)
 		case "gen":
 			n := op.Int(0)
 			ad := op.Bytes(0)
